@@ -21,6 +21,7 @@ CLAIMED = {
  "C13": ("sync(key) over revision populations with every owner x label x upgrade-marker combination, arbitrary revision numbers and an arbitrary int32 history limit: every revision delete in the log is justified, oldest first, each revision once", "5/C13"),
  "C16": ("each pod/set event handler on one event of every shape (owner x labels x resource version x deletion timestamp x tombstones) against the real lister: the enqueued keys are exactly those the statement lists; one worker step with an API failure at any call: AddRateLimited vs Forget, Done always", "5/C16"),
  "C17": ("the real Upgrade helper over fake clients for every selector shape / revision population / pre-existing Advanced object, interrupted by a failure (five kinds, incl. lost responses) or a crash at any API call and re-run: ordering of the built-in delete, orphan propagation, relabelling, no pod/claim call, same final state", "5/C17"),
+ "C19": ("clauses (b) and (c): the annotation helpers as lossless codecs over sets of arbitrary int32 (round trip, union, removal, other annotations untouched, pause flag), and SetObjectDefaults_StatefulSet applied twice vs once on objects varied area by area over the modelled schema with arbitrary int32/int64 field values; clause (a) (hijack read-back) is not decided", "5/C19"),
 }
 NA = {}
 def main():
